@@ -1,1 +1,26 @@
-From WT Require Import Base.Wrap.
+(** * C12 — Remote/local transparency: the server's response decodes to what the handler read. *)
+From WT Require Import Base.Wrap Base.ListX Base.Bytes Model.Time Model.Ring Model.Codec Model.Wire
+  Proofs.CodecProofs Proofs.WireProofs.
+
+Theorem C12_view_wire_roundtrip h l :
+  wf_header h -> Forall wf_series l -> length l = length (h_arcs h) ->
+  client_view (view_response h l) = WOk h l.
+Proof. exact (client_view_of_response h l). Qed.
+Print Assumptions C12_view_wire_roundtrip.
+
+Theorem C12_view_raw_wire_roundtrip h pl :
+  wf_header h -> Forall (fun ps => Forall wf_point ps /\ zlen ps <= MaxInt32) pl -> length pl = length (h_arcs h) ->
+  client_view_raw (view_raw_response h pl) = WOk h pl.
+Proof. exact (client_view_raw_of_response h pl). Qed.
+Print Assumptions C12_view_raw_wire_roundtrip.
+
+(** not-exist travels as the empty body and is never mistaken for data *)
+Theorem C12_not_exist_is_empty_body : client_view [] = WNotExist.
+Proof. exact client_view_empty. Qed.
+Print Assumptions C12_not_exist_is_empty_body.
+
+(** a server-side error (a text body) is a client-side error, never a silently wrong series *)
+Theorem C12_error_body_rejected body : bytes body -> (exists b r, body = b :: r /\ 0 < b) ->
+  match dec_header body with Ok _ _ => False | _ => True end.
+Proof. exact (error_body_rejected body). Qed.
+Print Assumptions C12_error_body_rejected.
